@@ -385,8 +385,12 @@ func (e *Exception) M__getattr__(name string) (Object, error) {
 }
 
 func (e *Exception) M__str__() (Object, error) {
-	msg := e.Args.(Tuple)[0]
-	return msg, nil
+	args, ok := e.Args.(Tuple)
+	if !ok || len(args) == 0 {
+		// an exception without arguments prints as the empty string
+		return String(""), nil
+	}
+	return args[0], nil
 }
 
 func (e *Exception) M__repr__() (Object, error) {
